@@ -165,28 +165,33 @@ def dump_node(n):
     return "(%s %s %d:%d-%d:%d%s)" % ((n.kind, core.esc(n.ident)) + tuple(n.rng) + ("".join(" " + dump_node(k) for k in n.kids),))
 
 
+# constructors of `Ex` / `Args` (call0 / set0 = empty list, 1 = one item, 2 = two or more: `Args.nil`, `.one`, `.more`)
+EX_CONSTRUCTORS = ["atom", "paren", "bin", "pre", "post", "dot", "call0", "call1", "call2", "index", "set0", "set1", "set2"]
+
+
 def expr_spec(ctx, n, depth):
     """tie of the SPEC side of `expr_roundtrip` (Ex.toks / Ex.tree / Ex.wfb, Lean) to the implementation: random abstract
     expressions are printed, lexed and parsed by the real code; the Lean spec, given the real tokens, must say `well formed`
     and its `Ex.tree` must be the subtree the implementation built for the right-hand side (kinds, names, ranges)"""
     cases = []
+    used = {}
     for i in range(n):
-        words, prefix = exspec.case(ctx.rng, 1 + ctx.rng.below(depth))
+        words, prefix, cons = exspec.case(ctx.rng, 1 + ctx.rng.below(depth))
         sep = [ctx.rng.choice([" ", " ", "  ", " \n  "]) for _ in words]
         text = "proc P\n x = " + "".join(w + s for w, s in zip(words, sep)) + "\nendproc\n"
-        cases.append((text, words, prefix))
+        cases.append((text, words, prefix, cons))
         ctx.count("expr-spec")
     lines = parsecases.texts_to_lines(ctx, [c[0] for c in cases])
     impl = ctx.run_harness("parse", lines, timeout=1200)
     spec_lines = []
-    for (text, words, prefix), line in zip(cases, lines):
+    for (text, words, prefix, cons), line in zip(cases, lines):
         toks = line.split(" ")[1:]
         # proc P x = <expr words> endproc
         ex = toks[4:4 + len(words)]
         spec_lines.append("exspec 8 " + " ".join(ex[int(w[1:])] if w.startswith("#") and int(w[1:]) < len(ex) else w for w in prefix))
     spec = ctx.run_driver(spec_lines, timeout=1200)
     ok, bad = 0, []
-    for (text, words, prefix), line, a, sp in zip(cases, lines, impl, spec):
+    for (text, words, prefix, cons), line, a, sp in zip(cases, lines, impl, spec):
         case = {"mode": "text", "text": text, "case": line}
         t, d = sexp.field(a, "T"), sexp.field(a, "D")
         toks = line.split(" ")[1:]
@@ -212,6 +217,13 @@ def expr_spec(ctx, n, depth):
                             dict(case, got=got[:600], want=want[:600]))
             continue
         ok += 1
+        for c in cons:
+            used[c] = used.get(c, 0) + 1
+    for c, m in sorted(used.items()):
+        ctx.count("expr-spec:" + c, m)
+    missing = [c for c in EX_CONSTRUCTORS if not used.get(c)]
+    ctx.oblige("tie:exspec-covers-every-constructor", not missing, "never exercised: %s" % missing)
+    ctx.log("exspec: constructors exercised (cases): %s" % " ".join("%s=%d" % kv for kv in sorted(used.items())))
     ctx.oblige("tie:exspec", not bad, "%d cases, first: %s" % (len(bad), bad[0] if bad else ""))
     ctx.log("exspec: %d expressions, implementation tree == Ex.tree (ranges included)" % ok)
 
